@@ -36,6 +36,8 @@ CHECKS = {
          "F8 is a known finding; histories are sampled", "TLA+ trace validation of fast-check histories (T_FastCheck)"),
  "C08": ("exploration", "Analyzer.tla states, over a vocabulary of 33 dependency-bearing items, 9 header and 2 footer forms and 6 media types, which ModuleInfo the analyser must return (kinds, order, unescaped text, attribute class, which pragma attaches to which import, what is ignored per media type); TLC enumerates every document of <= 2 (thorough 3) items and each is rendered with seeded trivia and analysed by the real ParserModuleAnalyzer; every reported range is mapped back onto the text and must cover exactly the token; Dependency::includes is probed at start/middle/end of every token; the range and includes clauses are also run on every module source of the spec corpus", "4.8, 7 C08",
          "decided for the modelled vocabulary; range arithmetic is checked by the renderer's knowledge of what it wrote, not by TLC", "TLC-enumerated documents replayed into the analyser (spec -> impl)"),
+ "C16": (MC, "design level: MC_Symbols checks for every star re-export graph over three modules (self loops, cycles, diamonds) that the visited-set DFS as coded equals the ES fixpoint; implementation level: enumerated programs are rendered and the real resolved export key sets compared; projected symbol tables (enumerated programs, seeded random packages, the spec corpus) are validated by TLC against WellFormedTree; go-to-definition runs from every symbol under a budget", "4.8, 7 C16",
+         "the symbol filler is checked against the invariant, not predicted", "TLC-enumerated programs replayed + trace validation of symbol tables (T_Symbols)"),
  "C05": (MC, "every loader call, lockfile read and write of seeded registry + remote worlds (lockfile absent / matching / wrong, tampered bytes and manifests, stale caches, redirects, cache-only probes) is a trace event; TLC checks per call that the known checksum is presented, and at the end that rejected content is not admitted, the retry discipline, rejected checksummed redirects and exact, non-overwriting lockfile writes", "4.6, 7 C05",
          "SHA-256 values are computed by the harness and compared as tokens; F9 is a known finding", "TLA+ trace validation of loader/locker events (T_Jsr)"),
  "C06": (MC, "function level: TLC enumerates the whole bounded domain of resolve_version (registries x requirements x already-selected x cached x cutoff), proves tiers-as-coded == property statement at design level and every combination is replayed into the real function; graph level: every on_resolve event of registry-world builds is validated in order against the statement with the selections made so far", "4.6, 7 C06",
